@@ -51,8 +51,8 @@ func set(names ...string) map[string]bool {
 }
 
 type ownSite struct {
-	fn  *ssa.Function
-	pos token.Pos
+	fn   *ssa.Function
+	pos  token.Pos
 	what string
 }
 
